@@ -9,6 +9,7 @@ import AscentVerif.Model.EnginePhysParTimeout
 import AscentVerif.Model.EnginePhysLat
 import AscentVerif.Model.EnginePhysParLat
 import AscentVerif.Model.EnginePhysLatTimeout
+import AscentVerif.Model.EnginePhysParLatTimeout
 import AscentVerif.Model.StdOps
 import AscentVerif.Proofs.PlanSwapBody
 namespace AscentVerif.Driver
@@ -348,6 +349,27 @@ def doRunPhysParLat (s : EngStore) (inst : String) (threads : Nat) : Option (Eng
         | .ok none => some (s, "nofuel")
         | .panic => some (s, "panic (frozen-state protocol)")
 
+/-- `run_timeout` through the PARALLEL physical-index engine model WITH lattices (`Model/EnginePhysParLatTimeout.lean`) in a pool of
+`threads` workers (rules one after the other: no `#![inter_rule_parallelism]`; same state conversion and schedule as
+`doRunPhysParLat`): the `k`-th clock reading finds the deadline passed; aggregation-free programs -/
+def doRunPhysParLatTimeout (s : EngStore) (inst : String) (k threads : Nat) : Option (EngStore × String) := do
+    let i ← (s.insts.find? (·.1 == inst)).map (·.2)
+    let p := desugRepeated i.pd.prog
+    if p.rules.any (fun r => r.body.any fun | .agg _ => true | _ => false) then some (s, "na")
+    else
+      let ix := Phys.ixSetsOf stdVars p
+      if !PhysParLat.latPlanOk stdVars p ix then some (s, "na-plan")
+      else
+        let s0 : PhysParLat.PLSt := PhysParLat.initSt threads p ix fun r => (relSt i.st r).rows
+        let back (ps : PhysParLat.ProgStT) : Inst :=
+          { i with st := (List.range p.rels.length).map fun r => { rows := PhysParLat.xrows ps.st r, idx := [] }, iters := ps.iters }
+        match PhysParLat.runTimeout (interp (kindOf i.pd)) stdVars p ix i.pd.order (demoSched threads) false threads
+            (fun c => c == k) defaultFuel s0 with
+        | .ok (.done ps) => some ({ s with insts := (inst, back ps) :: s.insts.filter (·.1 != inst) }, "true")
+        | .ok (.timedOut ps) => some ({ s with insts := (inst, back ps) :: s.insts.filter (·.1 != inst) }, "false")
+        | .ok .outOfFuel => some (s, "nofuel")
+        | .panic => some (s, "panic")
+
 def handleEng (s : EngStore) : List Sexp → Option (EngStore × String)
   | [.atom "prog", .atom id, p] => do
     let pd ← parseProg p
@@ -386,6 +408,7 @@ def handleEng (s : EngStore) : List Sexp → Option (EngStore × String)
     else if op == "runtopl" then do doRunPhysLatTimeout s inst (← r.asNat?)
     else if op == "runtop" then do doRunPhysTimeout s inst (← r.asNat?)
     else if op == "runtopp" then do doRunPhysParTimeout s inst (← r.asNat?) (← (← tuples.head?).asNat?)
+    else if op == "runtoppl" then do doRunPhysParLatTimeout s inst (← r.asNat?) (← (← tuples.head?).asNat?)
     else if op == "runto" then do
       let i ← (s.insts.find? (·.1 == inst)).map (·.2)
       let k ← r.asNat?
